@@ -91,7 +91,8 @@ def valsToPy : List Val → Option (List PyVal)
     | _, _ => none
 end
 
-/-- Go `==` on two `any` values holding scalars (same dynamic type and same value) -/
+/-- Go `==` on two `any` values holding scalars (same dynamic type and same value); used by the Python
+    jenny's own `enumValue.Value == typeDef.Default` (tools.go) -/
 def valScalarEq : Val → Val → Bool
   | .nil, .nil => true
   | .bool a, .bool b => a == b
@@ -100,6 +101,30 @@ def valScalarEq : Val → Val → Bool
   | .jnum a, .jnum b => a == b
   | .str a, .str b => a == b
   | _, _ => false
+
+/- `reflect.DeepEqual` on two `any` values of the IR (same dynamic type and structurally equal;
+   agrees with `==` on everything `==` can compare) -/
+mutual
+def valDeepEq : Val → Val → Bool
+  | .nil, .nil => true
+  | .bool a, .bool b => a == b
+  | .int t n, .int t' n' => t == t' && n == n'
+  | .float t r, .float t' r' => t == t' && r == r'
+  | .jnum a, .jnum b => a == b
+  | .str a, .str b => a == b
+  | .list xs, .list ys => valDeepEqList xs ys
+  | .map kvs, .map kvs' => valDeepEqMap kvs kvs'        -- key-sorted on both sides
+  | .other t r, .other t' r' => t == t' && r == r'
+  | _, _ => false
+def valDeepEqList : List Val → List Val → Bool
+  | [], [] => true
+  | x :: xs, y :: ys => valDeepEq x y && valDeepEqList xs ys
+  | _, _ => false
+def valDeepEqMap : List (String × Val) → List (String × Val) → Bool
+  | [], [] => true
+  | (k, x) :: xs, (k', y) :: ys => k == k' && valDeepEq x y && valDeepEqMap xs ys
+  | _, _ => false
+end
 
 def ofOpt {α} (why : String) : Option α → DRes α
   | some a => .ok a
@@ -153,14 +178,15 @@ def anyToInt64 : Val → Option Int
   | _ => none
 
 /-- `ast.EnumType.MemberForValue` (IR-level code shared by all jennies): the first member whose value
-    equals the given one — Go `==` on the two `any` for string enums, `AnyToInt64` of both otherwise —,
-    the FIRST member when there is none -/
+    equals the given one — `reflect.DeepEqual` of the two `any` for string enums (since /repo 182b25c;
+    `==` before, which panicked on list/object values), `AnyToInt64` of both otherwise —, the FIRST
+    member when there is none -/
 def memberForValue (vals : List EnumVal) (v : Val) : DRes EnumVal :=
   match vals with
   | [] => .unsup "empty enum"
   | v0 :: _ =>
     if isNilVal v then .ok v0
-    else if v0.kind == "string" then .ok ((vals.find? fun ev => valScalarEq ev.value v).getD v0)
+    else if v0.kind == "string" then .ok ((vals.find? fun ev => valDeepEq ev.value v).getD v0)
     else
       match anyToInt64 v with
       | none => .unsup "AnyToInt64 panics"
